@@ -616,6 +616,23 @@ func (c *VCtx) translateCall(sc *Scope, x *ECall) Val {
 	case "calls":
 		h := c.heap(st, "G:calls", ArrSort(SRef, SInt))
 		return Select(h, arg(0))
+	case "aint":
+		// aint(c): value of the atomic.Int32 / Int64 cell c (kind given by the Go type of c, default Int32)
+		a := arg(0)
+		tn := "Int32"
+		if a.GT != nil {
+			if n, ok := deref0(a.GT).(*types.Named); ok {
+				tn = n.Obj().Name()
+			}
+		}
+		h := c.heap(st, "F:sync/atomic."+tn+".v", ArrSort(SRef, SInt))
+		return Select(h, a)
+	case "abool":
+		h := c.heap(st, "F:sync/atomic.Bool.v", ArrSort(SRef, SInt))
+		return Not(Eq(Select(h, arg(0)), IntLit(0)))
+	case "aptr":
+		h := c.heap(st, "F:sync/atomic.Pointer.v", ArrSort(SRef, SRef))
+		return Select(h, arg(0))
 	case "selects":
 		// selects(ch): the select statement at this assertion point has a receive case on ch
 		var alts []*Term
@@ -782,4 +799,11 @@ func (c *VCtx) ctxDone(ctx *Term) *Term {
 func (c *VCtx) canon(data, off, ln *Term) *Term {
 	fn := c.declareFun("canon", []Sort{ArrSort(SInt, SInt), SInt, SInt}, SInt)
 	return T(SInt, fmt.Sprintf("(%s %s %s %s)", fn, data.S, off.S, ln.S))
+}
+
+func deref0(t types.Type) types.Type {
+	if p, ok := t.Underlying().(*types.Pointer); ok {
+		return p.Elem()
+	}
+	return t
 }
